@@ -35,6 +35,7 @@ class TextTable:
         self.units: list = []  # (kind, value)
         self.sent: dict = {}  # key string -> (value, base)
         self.nsent = 0
+        self.memo: dict = {}
 
     def span(self, spec: str, value) -> str:
         self.spans.append((spec, value))
@@ -138,6 +139,19 @@ def render_value(v: int, spec: str) -> str:
 def render_int(x: SymInt, spec: str) -> str:
     e = core.env()
     tt = table()
+    if e.text_mode != "sentinel":
+        # rendering is a function of (value term, spec): reuse the text produced before
+        key = (x.t.get_id(), spec)
+        hit = tt.memo.get(key)
+        if hit is not None:  # hit[0] keeps the AST alive, so equal ids mean the same term
+            return hit[1]
+        r = _render_int(e, tt, x, spec)
+        tt.memo[key] = (x.t, r)
+        return r
+    return _render_int(e, tt, x, spec)
+
+
+def _render_int(e, tt, x: SymInt, spec: str) -> str:
     if e.text_mode == "sentinel" and spec in ("", "d"):
         if x.lo < 0 and (x.hi < 0 or e.decide(x.t < 0)):
             return "-" + tt.sentinel(-x, 10)
@@ -155,12 +169,16 @@ def render_int(x: SymInt, spec: str) -> str:
             kind = {"b": "bin", "X": "hexU", "x": "hexL"}[k]
             bits = 1 if base == 2 else 4
             chars = []
+            w = x.t.size()
             for pos in range(n - 1, -1, -1):
-                d = (x >> (bits * pos)) & (base - 1)
-                if type(d) is builtins.int:
-                    chars.append(_DIG[kind][d])
-                else:
-                    chars.append(tt.unit(kind, d))
+                lo_b = bits * pos
+                hi_b = min(lo_b + bits - 1, w - 2)  # bit w-1 is the (zero) sign bit of a non-negative value
+                if hi_b < lo_b:
+                    chars.append("0")
+                    continue
+                dt = z3.Extract(hi_b, lo_b, x.t)
+                d = SymInt(z3.ZeroExt(bits + 1 - dt.size(), dt), 0, base - 1)
+                chars.append(tt.unit(kind, d))
             return "".join(chars)
     if spec in ("", "d", "X", "x", "b", "#x", "#b", "#X") or m:
         return tt.span(spec, x)
